@@ -189,6 +189,16 @@ func sameValue(a, b ssa.Value) bool {
 	if a == b {
 		return true
 	}
+	// len(x) / cap(x) of the same value
+	if ca, ok := a.(*ssa.Call); ok {
+		if cb, ok := b.(*ssa.Call); ok {
+			ba, ok1 := ca.Call.Value.(*ssa.Builtin)
+			bb, ok2 := cb.Call.Value.(*ssa.Builtin)
+			if ok1 && ok2 && ba.Name() == bb.Name() && (ba.Name() == "len" || ba.Name() == "cap") && len(ca.Call.Args) == 1 && len(cb.Call.Args) == 1 {
+				return sameValue(ca.Call.Args[0], cb.Call.Args[0])
+			}
+		}
+	}
 	ua, ok1 := a.(*ssa.UnOp)
 	ub, ok2 := b.(*ssa.UnOp)
 	if ok1 && ok2 && ua.Op == token.MUL && ub.Op == token.MUL {
